@@ -133,6 +133,23 @@ class Tag(HostModel):
             out = [t for t in out if t.string is not None and self._match_value(string, t.string)]
         return out[:limit] if limit else out
 
+    def select(self, selector, *a, **k):
+        """soupsieve, one form only: type[attr|=value] (the value a CSS identifier or a quoted string)"""
+        if a or k:
+            raise ModelError("select(<options>) is outside the model")
+        m = re.fullmatch(r"\s*([A-Za-z][A-Za-z0-9]*)\[\s*([A-Za-z_][A-Za-z0-9_-]*)\s*\|=\s*(?:\"([^\"\\\\]*)\"|'([^'\\\\]*)'|(-?[A-Za-z_][A-Za-z0-9_-]*))\s*\]\s*", selector) \
+            if isinstance(selector, str) else None
+        if not m:
+            raise ModelError(f"select({selector!r}) is outside the model (type[attr|=value] only)")
+        name, attr = m.group(1).lower(), m.group(2)
+        val = next(g for g in m.groups()[2:] if g is not None)
+        out = []
+        for t in self._descendants():
+            have = t.attrs.get(attr)
+            if t.name == name and isinstance(have, str) and (have == val or have.startswith(val + "-")):
+                out.append(t)
+        return out
+
     def find(self, name=None, attrs=None, recursive=True, string=None, **kw):
         r = self.find_all(name, attrs, recursive, string, 1, **kw)
         return r[0] if r else None
@@ -330,8 +347,10 @@ class Soup(Tag):
                 self._parse(markup)
         elif features == "html.parser":
             _HtmlBuilder(self).run(markup)
+        elif features == "lxml":
+            _LxmlHtmlBuilder(self).run(markup)
         else:
-            raise ModelError(f"BeautifulSoup(..., {features!r}) is outside the model (XML tree builder and html.parser only)")
+            raise ModelError(f"BeautifulSoup(..., {features!r}) is outside the model (XML tree builder, html.parser, lxml on the SAMI subset)")
 
     def _parse(self, markup):
         ns = dict(re.findall(r'xmlns:(\w+)="([^"]*)"', markup))
@@ -508,6 +527,105 @@ class _HtmlBuilder(html.parser.HTMLParser):
         self._end_data()
         self.data.append(data)
         self._end_data(Declaration)
+
+
+# ------------------------------------------------------------------------------------------------------------------
+# BeautifulSoup(markup, "lxml") on the SAMI subset: what pycaption hands to lxml is either the head of a SAMI file (to find
+# the style element) or the markup SAMIParser has already re-serialised with every tag closed in LIFO order, attribute
+# names lower-cased and values double-quoted.  On THAT subset libxml2's HTML parser builds the obvious tree with these
+# documented particulars (libxml2 HTMLparser.c; bs4/builder/_lxml.py), each compared at development time with the real
+# parser on generated documents and on the repository's SAMI fixtures:
+#   - html and body elements are created around the content; misplaced <head> / <body> tags inside <sami> are dropped;
+#   - of two attributes with one name the FIRST is kept; class becomes a list of tokens;
+#   - &amp; &lt; &gt; &quot; and numeric references are decoded; an unknown "&name" stays literal text;
+#   - style content is raw text.
+# Everything else - other tag names, a p opened inside a p, a known named reference without its semicolon - is refused.
+_LXML_TAGS = {"sami", "head", "title", "style", "body", "sync", "p", "span", "i", "b", "u", "br", "font", "html"}
+
+
+class _LxmlHtmlBuilder(_HtmlBuilder):
+    def __init__(self, soup):
+        super().__init__(soup)
+        html_ = Tag("html", {}, soup)
+        body = Tag("body", {}, soup)
+        soup._adopt(html_)
+        html_._adopt(body)
+        self.stack = [soup, html_, body]
+        self.base = 3
+        self.started = False
+
+    def run(self, markup):
+        outside_style = re.sub(r"(?is)<style\b.*?(</style>|$)", " ", markup)
+        for m in re.finditer(r"&([A-Za-z][A-Za-z0-9]*)(;?)", outside_style):
+            if not m.group(2) and m.group(1) in html.entities.name2codepoint:
+                raise ModelError(f"lxml model: named reference &{m.group(1)} without ';'")
+            if m.group(2) and m.group(1) not in html.entities.name2codepoint:
+                raise ModelError(f"lxml model: unknown named reference &{m.group(1)};")
+        super().run(markup)
+
+    def _end_data(self, cls=Text):
+        if self.data and not self.started:
+            if not "".join(self.data).strip():
+                self.data = []          # white space before the root element
+                return
+            raise ModelError("lxml model: text before the root element")
+        super()._end_data(cls)
+
+    def handle_starttag(self, tag, attrs, handle_empty_element=True):
+        if tag not in _LXML_TAGS:
+            raise ModelError(f"lxml model: <{tag}> is outside the modelled SAMI subset")
+        if not self.started and tag != "sami":
+            raise ModelError(f"lxml model: the document starts with <{tag}>, not <sami>")
+        self._end_data()
+        self.started = True
+        if tag in ("html", "head", "body"):
+            return                      # misplaced inside <sami>: libxml2 drops the tag and keeps the content
+        if tag == "p" and any(getattr(t, "name", None) == "p" for t in self.stack[self.base:]):
+            raise ModelError("lxml model: <p> inside an open <p>")
+        d = {}
+        for k, v in attrs:
+            if k not in d:              # libxml2: "Attribute redefined", the first one is kept
+                d[k] = "" if v is None else v
+        if "class" in d:
+            d["class"] = d["class"].split()
+        t = Tag(tag, d, self.soup)
+        self.stack[-1]._adopt(t)
+        self.stack.append(t)
+        if tag in _EMPTY and handle_empty_element:
+            self._pop_to(tag)
+            self.already_closed.append(tag)
+
+    def handle_endtag(self, tag):
+        if tag in ("html", "head", "body"):
+            self._end_data()
+            return
+        super().handle_endtag(tag)
+
+    def _pop_to(self, name):
+        if not any(getattr(t, "name", None) == name for t in self.stack[self.base:]):
+            return
+        while len(self.stack) > self.base:
+            t = self.stack.pop()
+            if t.name == name:
+                break
+
+    def handle_entityref(self, name):
+        if name in html.entities.name2codepoint:
+            self.handle_data(chr(html.entities.name2codepoint[name]))
+        else:
+            self.handle_data("&%s" % name)
+
+    def handle_comment(self, data):
+        raise ModelError("lxml model: comments are outside the modelled subset")
+
+    def handle_decl(self, decl):
+        raise ModelError("lxml model: declarations are outside the modelled subset")
+
+    def unknown_decl(self, data):
+        raise ModelError("lxml model: marked sections are outside the modelled subset")
+
+    def handle_pi(self, data):
+        raise ModelError("lxml model: processing instructions are outside the modelled subset")
 
 
 EXTERNAL_TYPES = {
